@@ -38,6 +38,8 @@ func replayMain(args []string) int {
 		fmt.Fprintln(os.Stderr, "unknown engine", rf.Engine)
 		return 2
 	}
+	limitMemory()
+	core.ActiveFindings, _ = core.LoadFindings(*known)
 	if rf.BySeed {
 		// process-death finding: run it from its seed; if we are still alive
 		// afterwards it did not reproduce.
